@@ -1,1 +1,481 @@
-// harness module for C14 (not written yet)
+// Verification harness for C14, daemon half: the holders of policy objects OUTSIDE `PolicyTable` —
+// the copies published in `TableManager.{import_policy, export_policy}` and every peer's
+// `PeerState.export_policy` override — driven through the REAL daemon entry points:
+//   Global::{add_policy, delete_policy, add_policy_assignment, delete_policy_assignment, add_peer},
+//   the gRPC handlers set_policy_assignment / set_policies / delete_peer of the real `GrpcService`,
+//   and (as the gRPC set/statement handlers do after message conversion) `global.ptable` directly
+//   for defined sets and statements.
+// Compiled into rustybgpd's unit-test binary only with `--cfg osrg_rustybgp_verif` and
+// `--cfg verif_c14` (or verif_all).  Grand-child of `crate::event`.
+//
+// Two case kinds on one stream (lean/Rbgp/Policy/Codec.lean, DCodec.lean):
+//   (case  (probes R*) (ops OP*))               table level, identical to the pt harness
+//   (dcase (probes R*) (peers A*) (dops DOP*))  daemon level
+// After EVERY call: the table listing, and for every holder (published import, published export,
+// each peer's override) the assignment it holds and the result of every probe through it.
+#![allow(dead_code, unused_imports)]
+
+use super::super::*;
+
+#[path = "/verif/harness/common/sexp.rs"]
+mod sexp;
+use sexp::Term;
+
+#[path = "/verif/harness/common/c14_table.rs"]
+mod tbl;
+use tbl::*;
+
+use crate::api::go_bgp_service_server::GoBgpService;
+
+fn peer_params(remote_addr: IpAddr, export_policy: Option<(table::Disposition, Vec<String>)>) -> PeerParams {
+    PeerParams {
+        remote_addr,
+        remote_port: Global::BGP_PORT,
+        expected_remote_asn: 0,
+        local_asn: 0,
+        passive: true,
+        rs_client: false,
+        route_reflector: RouteReflectorConfig::default(),
+        delete_on_disconnected: false,
+        admin_down: false,
+        state: SessionState::Idle,
+        holdtime: PeerParams::DEFAULT_HOLD_TIME,
+        connect_retry_time: PeerParams::DEFAULT_CONNECT_RETRY_TIME,
+        multihop_ttl: None,
+        ttl_security: None,
+        password: None,
+        families: FnvHashMap::default(),
+        send_max: FnvHashMap::default(),
+        prefix_limits: FnvHashMap::default(),
+        graceful_restart: None,
+        llgr: None,
+        bfd_config: None,
+        neighbor_interface: None,
+        bind_interface: None,
+        export_policy,
+    }
+}
+
+fn err_of(e: &Error) -> Term {
+    let k = match e {
+        Error::InvalidArgument(_) | Error::EmptyArgument => "invalid",
+        Error::AlreadyExists(_) => "exists",
+        Error::Table(table::TableError::InvalidArgument(_)) => "invalid",
+        Error::Table(table::TableError::AlreadyExists(_)) => "exists",
+        Error::Table(table::TableError::NotFound) => "notfound",
+        Error::Table(table::TableError::StillInUse(_)) => "inuse",
+        _ => "other",
+    };
+    Term::tag("err", vec![Term::atom(k)])
+}
+fn dres<T>(r: &Result<T, Error>) -> Term {
+    match r {
+        Ok(_) => Term::atom("ok"),
+        Err(e) => err_of(e),
+    }
+}
+fn status_res<T>(r: &Result<T, tonic::Status>) -> Term {
+    match r {
+        Ok(_) => Term::atom("ok"),
+        Err(s) => {
+            if std::env::var("VERIF_DEBUG").is_ok() {
+                eprintln!("status: {:?} {}", s.code(), s.message());
+            }
+            Term::tag(
+            "err",
+            vec![Term::atom(match s.code() {
+                tonic::Code::InvalidArgument => "invalid",
+                tonic::Code::AlreadyExists => "exists",
+                tonic::Code::NotFound => "notfound",
+                tonic::Code::FailedPrecondition => "inuse",
+                _ => "other",
+            })],
+        )}
+    }
+}
+
+/// holder name: `global` or a peer address
+fn holder_of(t: &Term) -> Option<(String, Option<IpAddr>)> {
+    if t.as_atom() == Some("global") {
+        return Some(("global".to_string(), None));
+    }
+    let a = addr_of(t)?;
+    Some((a.to_string(), Some(a)))
+}
+
+/// the name of a live assignment, canonical: a peer address prints as `@4:N` / `@6:N`
+fn canon_name(n: &str) -> String {
+    match n.parse::<IpAddr>() {
+        Ok(IpAddr::V4(a)) => format!("@4:{}", u32::from(a)),
+        Ok(IpAddr::V6(a)) => format!("@6:{}", u128::from(a)),
+        Err(_) => n.to_string(),
+    }
+}
+fn hasg_t(a: &table::PolicyAssignment) -> Term {
+    Term::tag(
+        "asg",
+        vec![
+            Term::atom(canon_name(a.name.as_ref())),
+            disp_t(a.disposition),
+            Term::list(a.policies.iter().map(|p| Term::atom(p.name.as_ref())).collect()),
+        ],
+    )
+}
+
+fn api_dir(d: table::PolicyDirection) -> i32 {
+    match d {
+        table::PolicyDirection::Import => api::PolicyDirection::Import as i32,
+        table::PolicyDirection::Export => api::PolicyDirection::Export as i32,
+    }
+}
+fn api_action(d: table::Disposition) -> i32 {
+    match d {
+        table::Disposition::Accept => api::RouteAction::Accept as i32,
+        table::Disposition::Reject => api::RouteAction::Reject as i32,
+        table::Disposition::Pass => 0,
+    }
+}
+fn api_assignment(name: &str, dir: table::PolicyDirection, dflt: table::Disposition, pols: &[String]) -> api::PolicyAssignment {
+    api::PolicyAssignment {
+        name: name.to_string(),
+        direction: api_dir(dir),
+        policies: pols.iter().map(|p| api::Policy { name: p.clone(), statements: Vec::new() }).collect(),
+        default_action: api_action(dflt),
+    }
+}
+
+// ---- SetPolicies payload from the flat op list (set-add* ; (stmt-add | pol-add)* ; asg-add*)
+fn api_match_set(name: &str, o: &str) -> Option<api::MatchSet> {
+    Some(api::MatchSet {
+        name: name.to_string(),
+        r#type: match o {
+            "any" => 0,
+            "all" => 1,
+            "invert" => 2,
+            _ => return None,
+        },
+    })
+}
+
+/// conditions the message can carry, in the order `conditions_from_api` emits them
+fn api_conditions(conds: &[Term]) -> Option<api::Conditions> {
+    let mut c = api::Conditions::default();
+    // `conditions_from_api` rejects the proto default (UNSPECIFIED = 0) as "invalid rpki condition";
+    // say NONE explicitly, as `statement_to_api` does
+    c.rpki_result = api::ValidationState::None as i32;
+    let mut last = -1i32;
+    for t in conds {
+        let l = t.as_list()?;
+        let k = l.first()?.as_atom()?;
+        let idx: i32;
+        match (k, l.len()) {
+            ("cset", 4) => {
+                let name = l[2].as_atom()?;
+                let ms = api_match_set(name, l[3].as_atom()?)?;
+                match l[1].as_atom()? {
+                    "prefix" => {
+                        idx = 0;
+                        c.prefix_set = Some(ms)
+                    }
+                    "neighbor" => {
+                        idx = 1;
+                        c.neighbor_set = Some(ms)
+                    }
+                    "aspath" => {
+                        idx = 2;
+                        c.as_path_set = Some(ms)
+                    }
+                    "comm" => {
+                        idx = 4;
+                        c.community_set = Some(ms)
+                    }
+                    "ext" => {
+                        idx = 5;
+                        c.ext_community_set = Some(ms)
+                    }
+                    "large" => {
+                        idx = 6;
+                        c.large_community_set = Some(ms)
+                    }
+                    _ => return None,
+                }
+            }
+            ("lpeq", 2) => {
+                idx = 9;
+                c.local_pref_eq = Some(api::LocalPrefEq { value: u32_of(&l[1])? })
+            }
+            ("medeq", 2) => {
+                idx = 10;
+                c.med_eq = Some(api::MedEq { value: u32_of(&l[1])? })
+            }
+            _ => return None,
+        }
+        if idx <= last {
+            return None;
+        }
+        last = idx;
+    }
+    Some(c)
+}
+
+fn api_actions(disp: &Term, acts: &Term) -> Option<api::Actions> {
+    let mut a = api::Actions::default();
+    a.route_action = match disp.as_atom()? {
+        "none" => 0,
+        "accept" => api::RouteAction::Accept as i32,
+        "reject" => api::RouteAction::Reject as i32,
+        _ => return None,
+    };
+    for it in acts.as_list()? {
+        let l = it.as_list()?;
+        let k = l.first()?.as_atom()?;
+        match (k, l.len()) {
+            ("lp", 2) => a.local_pref = Some(api::LocalPrefAction { value: u32_of(&l[1])? }),
+            ("med", 3) => {
+                a.med = Some(api::MedAction {
+                    r#type: match l[1].as_atom()? {
+                        "mod" => api::med_action::Type::Mod as i32,
+                        "replace" => api::med_action::Type::Replace as i32,
+                        _ => return None,
+                    },
+                    value: i64_of(&l[2])?,
+                })
+            }
+            _ => return None,
+        }
+    }
+    Some(a)
+}
+
+fn api_defined_set(a: &[Term]) -> Option<api::DefinedSet> {
+    // (set-add K name (elems))
+    if a.len() != 3 {
+        return None;
+    }
+    let cfg = set_config_of(a[0].as_atom()?, name_of(&a[1])?, a[2].as_list()?)?;
+    use table::DefinedSetConfig as D;
+    Some(match cfg {
+        D::Prefix { name, prefixes } => api::DefinedSet {
+            defined_type: api::DefinedType::Prefix as i32,
+            name,
+            list: Vec::new(),
+            prefixes: prefixes
+                .into_iter()
+                .map(|p| api::Prefix { ip_prefix: p.ip_prefix, mask_length_min: p.mask_length_min as u32, mask_length_max: p.mask_length_max as u32 })
+                .collect(),
+        },
+        D::Neighbor { name, neighbors } => api::DefinedSet { defined_type: api::DefinedType::Neighbor as i32, name, list: neighbors, prefixes: Vec::new() },
+        D::AsPath { name, patterns } => api::DefinedSet { defined_type: api::DefinedType::AsPath as i32, name, list: patterns, prefixes: Vec::new() },
+        D::Community { name, patterns } => api::DefinedSet { defined_type: api::DefinedType::Community as i32, name, list: patterns, prefixes: Vec::new() },
+        D::ExtCommunity { name, patterns } => api::DefinedSet { defined_type: api::DefinedType::ExtCommunity as i32, name, list: patterns, prefixes: Vec::new() },
+        D::LargeCommunity { name, patterns } => api::DefinedSet { defined_type: api::DefinedType::LargeCommunity as i32, name, list: patterns, prefixes: Vec::new() },
+    })
+}
+
+fn set_policies_request(ops: &[Term]) -> Option<api::SetPoliciesRequest> {
+    let mut req = api::SetPoliciesRequest::default();
+    let mut stmts: Vec<(String, api::Statement, bool)> = Vec::new();
+    let mut phase = 0;
+    for op in ops {
+        let l = op.as_list()?;
+        let k = l.first()?.as_atom()?;
+        let a = &l[1..];
+        match (k, a.len()) {
+            ("set-add", 3) if phase == 0 => req.defined_sets.push(api_defined_set(a)?),
+            ("stmt-add", 4) if phase <= 1 => {
+                phase = 1;
+                let name = name_of(&a[0])?;
+                if stmts.iter().any(|s| s.0 == name) {
+                    return None;
+                }
+                let st = api::Statement { name: name.clone(), conditions: Some(api_conditions(a[1].as_list()?)?), actions: Some(api_actions(&a[2], &a[3])?) };
+                stmts.push((name, st, false));
+            }
+            ("pol-add", 2) if phase <= 1 => {
+                phase = 1;
+                let mut v = Vec::new();
+                for n in names_of(&a[1])? {
+                    let s = stmts.iter_mut().find(|s| s.0 == n)?;
+                    s.2 = true;
+                    v.push(s.1.clone());
+                }
+                req.policies.push(api::Policy { name: name_of(&a[0])?, statements: v });
+            }
+            ("asg-add", 4) => {
+                phase = 2;
+                let d = dir_of(&a[0])?;
+                req.assignments.push(api_assignment("global", d, disp_of(&a[2])?, &names_of(&a[3])?));
+                if a[1].as_atom()? != "global" {
+                    return None;
+                }
+            }
+            _ => return None,
+        }
+    }
+    // a statement no policy lists would silently not be part of the message
+    if stmts.iter().any(|s| !s.2) {
+        return None;
+    }
+    Some(req)
+}
+
+struct World {
+    svc: GrpcService,
+    global: GlobalHandle,
+    tables: TableHandle,
+}
+
+/// Some(result) or None = ill-formed op
+async fn exec_dop(w: &World, t: &Term) -> Option<Term> {
+    let l = t.as_list()?;
+    let k = l.first()?.as_atom()?;
+    let a = &l[1..];
+    Some(match (k, a.len()) {
+        ("tbl", 1) => {
+            let h = a[0].head()?;
+            if !["set-add", "set-replace", "set-del", "stmt-add", "stmt-del"].contains(&h) {
+                return None;
+            }
+            exec_op(&mut w.global.write().await.ptable, &a[0])?
+        }
+        ("pol-add", 2) => dres(&w.global.write().await.add_policy(a[0].as_atom()?, names_of(&a[1])?)),
+        ("pol-del", 4) => dres(&w.global.write().await.delete_policy(w.tables.clone(), a[0].as_atom()?, a[1].as_bool()?, a[2].as_bool()?, names_of(&a[3])?)),
+        ("asg-add", 4) => {
+            let (name, _) = holder_of(&a[0])?;
+            let req = api_assignment(&name, dir_of(&a[1])?, disp_of(&a[2])?, &names_of(&a[3])?);
+            dres(&w.global.write().await.add_policy_assignment(w.tables.clone(), req))
+        }
+        ("asg-del", 4) => {
+            let (name, _) = holder_of(&a[0])?;
+            dres(&w.global.write().await.delete_policy_assignment(w.tables.clone(), name, dir_of(&a[1])?, names_of(&a[3])?, a[2].as_bool()?))
+        }
+        ("asg-set", 4) => {
+            let (name, _) = holder_of(&a[0])?;
+            let req = api_assignment(&name, dir_of(&a[1])?, disp_of(&a[2])?, &names_of(&a[3])?);
+            status_res(&w.svc.set_policy_assignment(tonic::Request::new(api::SetPolicyAssignmentRequest { assignment: Some(req) })).await)
+        }
+        ("peer-add", 2) => {
+            let addr = addr_of(&a[0])?;
+            let ep = if a[1].as_atom() == Some("none") {
+                None
+            } else {
+                let s = a[1].tagged("some")?;
+                if s.len() != 2 {
+                    return None;
+                }
+                Some((disp_of(&s[0])?, names_of(&s[1])?))
+            };
+            dres(&w.global.write().await.add_peer(peer_params(addr, ep), None))
+        }
+        ("peer-del", 1) => {
+            let addr = addr_of(&a[0])?;
+            status_res(&w.svc.delete_peer(tonic::Request::new(api::DeletePeerRequest { address: addr.to_string(), ..Default::default() })).await)
+        }
+        ("set-policies", 1) => {
+            let req = set_policies_request(a[0].as_list()?)?;
+            status_res(&w.svc.set_policies(tonic::Request::new(req)).await)
+        }
+        _ => return None,
+    })
+}
+
+fn holder_t(a: Option<Arc<table::PolicyAssignment>>, dir: i32, routes: &[Route]) -> Term {
+    match a {
+        None => Term::atom("none"),
+        Some(a) => {
+            let mut v = vec![hasg_t(&a)];
+            v.extend(routes.iter().map(|r| probe_asg(&a, dir, r)));
+            Term::list(v)
+        }
+    }
+}
+
+async fn holders(w: &World, routes: &[Route]) -> Vec<Term> {
+    let g = w.global.read().await;
+    let mut ps: Vec<(u8, u128, IpAddr)> = g
+        .peers
+        .keys()
+        .map(|a| match a {
+            IpAddr::V4(x) => (4u8, u32::from(*x) as u128, *a),
+            IpAddr::V6(x) => (6u8, u128::from(*x), *a),
+        })
+        .collect();
+    ps.sort();
+    let peers: Vec<Term> = ps
+        .iter()
+        .map(|(_, _, a)| {
+            let p = g.peers.get(a).unwrap();
+            Term::list(vec![addr_t(a), holder_t(p.state.export_policy.load_full(), 2, routes)])
+        })
+        .collect();
+    vec![
+        Term::tag("himp", vec![holder_t(w.tables.import_policy.load_full(), 1, routes)]),
+        Term::tag("hexp", vec![holder_t(w.tables.export_policy.load_full(), 2, routes)]),
+        Term::tag("hpeers", peers),
+    ]
+}
+
+async fn run_dcase(t: &Term) -> String {
+    let bad = "(bad-case)".to_string();
+    let Some(c) = t.tagged("dcase") else { return bad };
+    if c.len() != 3 {
+        return bad;
+    }
+    let (Some(pr), Some(peers), Some(ops)) = (c[0].tagged("probes"), c[1].tagged("peers"), c[2].tagged("dops")) else { return bad };
+    let Some(routes) = pr.iter().map(route_of).collect::<Option<Vec<Route>>>() else { return bad };
+    let Some(addrs) = peers.iter().map(addr_of).collect::<Option<Vec<IpAddr>>>() else { return bad };
+    let (tx, _rx) = mpsc::unbounded_channel();
+    let (bfd_tx, _bfd_rx) = mpsc::unbounded_channel();
+    let mut g = Global::new(tx, bfd_tx);
+    g.asn = 65001;
+    g.router_id = Ipv4Addr::new(1, 0, 0, 1);
+    for a in &addrs {
+        if g.add_peer(peer_params(*a, None), None).is_err() {
+            return bad;
+        }
+    }
+    let global: GlobalHandle = Arc::new(tokio::sync::RwLock::new(g));
+    let tables: TableHandle = Arc::new(TableManager::new(1));
+    let (atx, _arx) = mpsc::unbounded_channel();
+    let w = World { svc: GrpcService::new(Arc::new(tokio::sync::Notify::new()), atx, global.clone(), tables.clone()), global, tables };
+    let mut steps = Vec::new();
+    let mut prev_dump = String::new();
+    for op in ops {
+        let Some(res) = exec_dop(&w, op).await else { return bad };
+        let d = dump(&w.global.read().await.ptable);
+        let ds = d.to_string();
+        let dt = if ds == prev_dump { Term::atom("=") } else { d };
+        prev_dump = ds;
+        let mut v = vec![res, dt];
+        v.extend(holders(&w, &routes).await);
+        steps.push(Term::tag("dstep", v));
+    }
+    Term::tag("dobs", steps).to_string()
+}
+
+fn run_case(line: &str) -> String {
+    let Some(t) = Term::parse(line) else { return "(bad-case)".to_string() };
+    match t.head() {
+        Some("case") => run_table_case(&t),
+        Some("dcase") => {
+            let rt = tokio::runtime::Builder::new_current_thread().enable_all().build().unwrap();
+            rt.block_on(run_dcase(&t))
+        }
+        _ => "(bad-case)".to_string(),
+    }
+}
+
+#[test]
+fn verif_main() {
+    let (Ok(prop), Ok(inp), Ok(out)) = (std::env::var("VERIF_PROP"), std::env::var("VERIF_IN"), std::env::var("VERIF_OUT")) else {
+        return; // not invoked by /verif/check
+    };
+    if prop != "C14" {
+        return;
+    }
+    std::panic::set_hook(Box::new(|_| {}));
+    sexp::run_lines(&inp, &out, |l| {
+        let l = l.to_string();
+        std::panic::catch_unwind(move || run_case(&l)).unwrap_or_else(|_| "(panic)".into())
+    });
+}
